@@ -753,6 +753,33 @@ class Body:
                     continue
                 yield i, t
 
+    def calls_incl_closures(self, depth=2):
+        """live calls of the body and of the closures it hands to a call (`iter.try_for_each(|x| x.write(conn))`): yields
+        (block of this body, terminator, owning body, block in the owning body).  A call made inside such a closure is attributed
+        to the block of this body that consumes the closure, so that rules scanning an arm see the calls the arm makes through
+        iterator adaptors."""
+        for bi, t in self.live_calls():
+            yield bi, t, self, bi
+            if depth <= 0:
+                continue
+            for a in self.call_args(bi, expand_vars=True):
+                for sx in subterms(a):
+                    if sx[0] == "aggr" and sx[1] == "closure":
+                        cb = self.prog.bodies.get(sx[2])
+                        if cb is None:
+                            continue
+                        for cbi, ct, ob, obi in cb.calls_incl_closures(depth - 1):
+                            yield bi, ct, ob, obi
+
+    def type_of_root(self, t):
+        """like root_type, and a captured variable has the type it has in the enclosing body"""
+        u = t
+        while u[0] in ("ref", "deref", "field", "cast", "downcast", "index"):
+            u = u[1]
+        if u[0] == "upvar":
+            return self.upvar_type(u[1])
+        return self.root_type(t)
+
     def calls_to(self, regex, live=True):
         r = re.compile(regex)
         out = []
